@@ -6,6 +6,7 @@ import Autog.Model.Phase3
 import Autog.Model.Phase4
 import Autog.Model.SinkColoring
 import Autog.Model.NsPositioner
+import Autog.Model.BrandesKoepf
 import Autog.Model.Phase5
 import Autog.Model.Layout
 /-! The composed model of `autog.Layout` for the configurations whose phases all have an exact model, with the
@@ -37,7 +38,8 @@ def phase4Model (cfg : Cfg) (g : G) : M G := do
     | 1 => phase4Simple 1 cfg.ns cfg.ls g
     | 2 => phase4Simple 2 cfg.ns cfg.ls g
     | 3 => (execNsPositioner (thorOf cfg) 4 cfg.ns g).map (assignYCoords cfg.ls)
-    | _ => throw "no exact model for this positioner"
+    | 4 => (BK.execBrandesKoepf cfg.bk cfg.ns g).map (assignYCoords cfg.ls)
+    | _ => throw "unknown positioner"
 
 /-- one component through the whole pipeline -/
 def layoutComponent (ord : G → M G) (cfg : Cfg) (c : G × List Nat) : M G := do
